@@ -550,7 +550,7 @@ func (r *runner) limits() {
 }
 
 // cb prints a byte string for the case files: (B len [w1; w2; ...]) with seven bytes
-// per primitive-integer literal (see model/C11_Metadata.v, B).
+// per primitive-integer literal (see coqPrelude in main.go).
 func cb(b []byte) string {
 	var sb strings.Builder
 	fmt.Fprintf(&sb, "(B %s [", ci(uint64(len(b))))
